@@ -54,6 +54,8 @@ func possibleThresholds(init int, changes []thrChange, typ string, sinks bool, a
 	return out
 }
 
+var errSendCause = errors.New("caller's own reason for giving up")
+
 type fanOpts struct {
 	cancel     bool
 	thresholds bool
@@ -71,6 +73,7 @@ type fanSend struct {
 	ID         int
 	Type       string
 	CancelMode string // never, pre, task, deadline
+	Cause      bool   // the context is ended WITH A CAUSE (WithCancelCause / WithTimeoutCause): ctx.Err() stays Canceled / DeadlineExceeded
 	CancelAfter int   // yields the canceller waits / deadline in ns
 	// results
 	status     el.Status
@@ -216,7 +219,44 @@ func runFanout(rc *RunCtx, o fanOpts) {
 	for i := 0; i < nOps; i++ {
 		typ := types[tp.Choose(len(types), "ptype")]
 		pid := pipeIDs[tp.Choose(maxP, "pid")]
-		switch tp.Choose(7, "histop") {
+		switch tp.Choose(8, "histop") {
+		case 7: // removals that are refused (unknown ids, nodes in use): nothing may change, nothing may stay locked
+			switch tp.Choose(4, "refusedkind") {
+			case 0:
+				ok, err := broker.RemovePipelineAndNodes(context.Background(), el.EventType(typ), "no-such-pipeline")
+				desc.History = append(desc.History, fmt.Sprintf("RemovePipelineAndNodes(%s,no-such-pipeline) = %v, %v", typ, ok, err))
+				if ok {
+					rc.Failf(rc.Prop+".setup", "refused-removal-accepted", "RemovePipelineAndNodes of an unknown pipeline reported true")
+					return
+				}
+			case 1:
+				err := broker.RemovePipeline(el.EventType(typ), "no-such-pipeline")
+				desc.History = append(desc.History, fmt.Sprintf("RemovePipeline(%s,no-such-pipeline) err=%v", typ, err))
+			case 2:
+				err := broker.RemoveNode(context.Background(), "no-such-node")
+				desc.History = append(desc.History, fmt.Sprintf("RemoveNode(no-such-node) err=%v", err))
+				if err == nil {
+					rc.Failf(rc.Prop+".setup", "refused-removal-accepted", "RemoveNode of an unknown id succeeded")
+					return
+				}
+			default:
+				var used string
+				for _, t := range types {
+					for _, p := range model.pipesOfType(t) {
+						used = p.nodeIDs[len(p.nodeIDs)-1]
+					}
+				}
+				if used == "" {
+					continue
+				}
+				err := broker.RemoveNode(context.Background(), el.NodeID(used))
+				desc.History = append(desc.History, fmt.Sprintf("RemoveNode(%s) [in use] err=%v", used, err))
+				if err == nil {
+					rc.Failf(rc.Prop+".setup", "refused-removal-accepted", "RemoveNode of the in-use node %s succeeded", used)
+					return
+				}
+			}
+			simrt.Probe("history.refused-removal")
 		case 6: // a re-registration that must fail and leave everything as it was
 			bad := [][]string{{filters[0].id, sinks[0].id}, {formatters[0].id, "zz-unregistered", sinks[0].id}, {formatters[0].id, sinks[0].id, filters[0].id}}[tp.Choose(3, "badkind")]
 			nids := make([]el.NodeID, len(bad))
@@ -349,10 +389,13 @@ func runFanout(rc *RunCtx, o fanOpts) {
 					anyDeadline = true
 				}
 			}
+			if o.cancel && s.CancelMode != "never" && tp.Choose(3, "with-cause") == 0 {
+				s.Cause = true
+			}
 			sendTypes[s.ID] = s.Type
 			mine = append(mine, s)
 			sends = append(sends, s)
-			cdesc = append(cdesc, fmt.Sprintf("Send#%d(%s) cancel=%s/%d", s.ID, s.Type, s.CancelMode, s.CancelAfter))
+			cdesc = append(cdesc, fmt.Sprintf("Send#%d(%s) cancel=%s/%d cause=%v", s.ID, s.Type, s.CancelMode, s.CancelAfter, s.Cause))
 		}
 		desc.Clients = append(desc.Clients, cdesc)
 		mySends := mine
@@ -362,9 +405,18 @@ func runFanout(rc *RunCtx, o fanOpts) {
 				var cancel context.CancelFunc
 				switch s.CancelMode {
 				case "deadline":
-					s.ctx, cancel = context.WithTimeout(context.Background(), time.Duration(s.CancelAfter))
+					if s.Cause {
+						s.ctx, cancel = context.WithTimeoutCause(context.Background(), time.Duration(s.CancelAfter), errSendCause)
+					} else {
+						s.ctx, cancel = context.WithTimeout(context.Background(), time.Duration(s.CancelAfter))
+					}
 				default:
-					s.ctx, cancel = context.WithCancel(context.Background())
+					if s.Cause {
+						c, cc := context.WithCancelCause(context.Background())
+						s.ctx, cancel = c, func() { cc(errSendCause) }
+					} else {
+						s.ctx, cancel = context.WithCancel(context.Background())
+					}
 				}
 				switch s.CancelMode {
 				case "pre":
